@@ -44,7 +44,9 @@ Bodies == {"bare", "empty_parens", "ident", "two_idents", "unknown_ident", "int_
            \* trailing commas inside and after a nested list
            "nested_trailing", "nested_trailing2",
            \* literals mentioning `_variant` (the enum-level wrapping path of the Display-like derives), bare and wrapped
-           "fmt_variant", "fmt_variant_wrap"}
+           "fmt_variant", "fmt_variant_wrap",
+           \* list entries with no comma between them
+           "types_nocomma", "forms_nocomma"}
 
 \* a position only exists on shapes that have it
 HasPosition(shape, pos) ==
